@@ -5,7 +5,12 @@ trailing characters) and the cross-post SOURCE board (BRD_CPLOG, ban, limits, le
 scratch BBS environment and pushed through ptt.NewPost / Recommend / EditPost / CrossPost / CheckPostPerm2 /
 CheckPostRestriction; accept/refuse and the before/after snapshots of EVERY board must equal the extracted model
 and satisfy the rule set. getRestrictionReason is swept over all 256 values of either limit, isFileOwner over id
-pairs related by prefix / case / trailing bytes."""
+pairs related by prefix / case / trailing bytes.
+Two inputs of the rule set live outside a row and are varied on their own: the SITE CONFIGURATION (op 9: the read-only
+system boards BN_SECURITY / BN_ALLPOST are named by an ini file loaded through initgin.InitAllConfig after package
+initialisation; rows address a board by name) and the WRITER'S UID in both builds (op 10: default, and the production
+table sizes of `-tags docker` in a second driver build/implrun_docker; uids around MAX_BOARD, 2^16 and MAX_USERS, with
+the opposite cool-down state planted at the uids a wrong index or bound would read)."""
 import os, sys
 from concurrent.futures import ThreadPoolExecutor
 sys.path.insert(0, os.path.join(os.path.dirname(os.path.abspath(__file__)), "..", "lib"))
@@ -290,14 +295,88 @@ def bts(b):
     return " ".join(map(str, bytes(b)))
 
 
+# ---------------------------------------------------------------- the site configuration (op 9) and the writer's uid (op 10)
+N_WHOAMI, N_ALLPOST, N_SYSOP, N_ALLHID, N_SECURITY = b"WhoAmI", b"ALLPOST", b"SYSOP", b"ALLHIDPOST", b"Security"
+TARGETS = [N_WHOAMI, N_ALLPOST, N_SYSOP]                  # boards of the scratch BBS a row can address by name
+# (BN_SECURITY, BN_ALLPOST) as a site's ini file may name them; the first is what is compiled in
+SITE_CONFIGS = [
+    (N_SECURITY, N_ALLPOST),
+    (N_SECURITY, N_WHOAMI),                                                         # the all-post log board renamed (the code also WRITES there: an existing board, its own spelling)
+    (N_WHOAMI, N_ALLPOST), (b"whoAMi", N_ALLPOST), (b"WHOAMI", N_ALLPOST), (b"whoami", N_ALLHID),   # the security board renamed (board names compare without case)
+    (N_ALLHID, N_WHOAMI), (N_WHOAMI, N_ALLHID),                                     # both renamed
+    (N_SECURITY, N_SYSOP), (N_SYSOP, N_ALLPOST),                                    # the default board configured read-only
+    (N_SECURITY, N_ALLHID),
+    (b"WhoAm", N_ALLPOST), (b"WhoAmI2", N_ALLPOST), (b"ALLPOS", N_ALLHID), (b"ALLPOSTS", N_ALLHID),   # names that only share a prefix with a board
+    (N_ALLPOST, N_ALLPOST), (N_WHOAMI, N_WHOAMI),                                   # both names on one board
+]
+
+
+def board_name_eq(a, b):
+    """two board names denote the same board: equal C strings in the 13-byte id field, up to the case of A..Z"""
+    low = lambda x: bytes(ch + 32 if 65 <= ch <= 90 else ch for ch in cstr(x, 13))
+    return low(a) == low(b)
+
+
+def gen_const(build, name):
+    """a constant of the Go source as gosync regenerated it for this run (coq/Gen/Consts_<build>.v)"""
+    import re
+    src = open(os.path.join(vf.COQ, "Gen", "Consts_%s.v" % build)).read()
+    return int(re.search(r"Definition %s : Z := (-?\d+)\." % name, src).group(1))
+
+
+def simple_devs():
+    """the deviations a 5-group row can carry (no owner bytes, no source-board planting) that leave the board choice alone"""
+    res = []
+    for (n, f) in DEV:
+        r = dict(BASE); f(r)
+        if not extended(r) and r["bsel"] == 0:
+            res.append((n, f))
+    return res
+
+
+def replay_docker(path):
+    """--replay of a case that needs the production build: same protocol as vf.Check.do_replay, on build/implrun_docker"""
+    import json
+    obj = json.load(open(path))
+    if obj.get("build") != "docker":
+        return
+    print("replay of %s (driver built with -tags 'verif docker'): %s" % (path, obj.get("what", "")))
+    exe = vf.build_impl(tags="verif docker", name="implrun_docker")
+    out = vf.run_impl(exe, "C08", obj["cases"], deadline_ms=60000)
+    vf.ipc_cleanup()
+    bad = False
+    for cs, o in zip(obj["cases"], out):
+        print("case   %s\nresult %s" % (cs, o))
+        bad = bad or o.split()[:1] in (["1"], ["2"])
+    if isinstance(obj.get("expected"), str):
+        print("expected %s" % obj["expected"])
+        bad = bad or out[-1].strip() != obj["expected"].strip()
+    print("replay: %s" % ("property still violated on this input" if bad else "input now behaves"))
+    sys.exit(1 if bad else 0)
+
+
+def tick(label, _t=[None]):
+    import time
+    if os.environ.get("VERIF_TIMING"):
+        now = time.time()
+        sys.stderr.write("[C08 %6.1fs] %s\n" % (now - (_t[0] or now), label))
+        _t[0] = _t[0] or now
+
+
 def main():
+    tick("start")
+    if "--replay" in sys.argv[1:-1]:
+        replay_docker(sys.argv[sys.argv.index("--replay") + 1])
     c = vf.Check("C08")
     rng = c.rng
     thorough = c.tier == "thorough"
     c.prove()
     model_ok = c.model_ok()
+    tick("proved")
     impl = vf.build_impl()
+    impl_docker = vf.build_impl(tags="verif docker", name="implrun_docker")      # the production table sizes (MAX_USERS 2 000 000, MAX_BOARD 20 000)
     model = vf.build_model("C08") if model_ok else None
+    tick("built")
     vf.ipc_cleanup()
 
     def run_impl_par(lines, workers=12):
@@ -306,6 +385,63 @@ def main():
         with ThreadPoolExecutor(max_workers=workers) as ex:
             outs = list(ex.map(lambda ch: vf.run_impl(impl, "C08", ch, deadline_ms=20000), chunks))
         return [o for ch in outs for o in ch]
+
+    # ---------------------------------------------------------------- rows outside the table: site configurations (op 9), writer uids in
+    # both builds (op 10). Generated and started here, on a pool of their own next to the table; judged further down
+    side = ThreadPoolExecutor(max_workers=6)
+    sdev = simple_devs()
+    cfg_rows = [(dict(BASE), ("base",))]
+    for (n1, f1) in sdev:
+        r = dict(BASE); f1(r); cfg_rows.append((r, (n1,)))
+    sysop = dict(DEV)["sysop"]
+    for (n1, f1) in sdev:
+        if n1 in ("inbm", "banned", "guestpost", "hidden", "no-post", "no-loginok", "cd-active-full", "not-owner", "missing-article", "voteboard"):
+            r = dict(BASE); sysop(r); f1(r); cfg_rows.append((r, ("sysop", n1)))
+    l9, m9 = [], []
+    for (sec, allpost) in SITE_CONFIGS:
+        for tgt in TARGETS:
+            ro = board_name_eq(tgt, sec) or board_name_eq(tgt, allpost)
+            for (r, t) in (cfg_rows if thorough or ro or (sec, allpost) == SITE_CONFIGS[0] else cfg_rows[:12]):
+                rr = dict(r, bsel=2 if tgt == N_SYSOP else 0)
+                reff = dict(rr, bsel=1 if ro else rr["bsel"])            # what the rule set sees: read-only by configuration
+                for op in (1, 2, 3, 4, 5):
+                    l9.append("9|%d|%s|%s|%s|%s" % (op, bts(sec), bts(allpost), bts(tgt), line(op, rr).split("|", 1)[1]))
+                    m9.append((op, reff, t, sec, allpost, tgt, ro))
+    f9 = side.submit(run_impl_par, l9, 4)
+    cd_devs = [(n, f) for (n, f) in sdev if n.startswith("cd-")]
+    co_devs = [(n, f) for (n, f) in sdev if n in ("sysop", "inbm", "banned", "guestpost", "no-loginok", "few-logins", "not-owner") or
+               (thorough and n in ("friend", "restrictedpost", "hidden", "no-post", "badposts", "violatelaw", "missing-article", "norecommend"))]
+    uid_rows = [(dict(BASE), ("base",))]
+    for (n1, f1) in cd_devs:
+        r = dict(BASE); f1(r); uid_rows.append((r, (n1,)))
+        for (n2, f2) in co_devs:
+            r = dict(BASE); f1(r); f2(r); uid_rows.append((r, (n1, n2)))
+    for (n2, f2) in co_devs:
+        r = dict(BASE); f2(r); uid_rows.append((r, (n2,)))
+    r = dict(BASE); dict(DEV)["friend"](r); dict(DEV)["restrictedpost"](r); uid_rows.append((r, ("friend", "restrictedpost")))
+    jobs10 = {}
+    import random
+    urng = random.Random(c.seed * 7919 + 8)            # the table's own stream stays what it was
+    for build, exe in (("default", impl), ("docker", impl_docker)):
+        max_users, max_board = gen_const(build, "MAX_USERS"), gen_const(build, "MAX_BOARD")
+        # the fixture's own uid, a free low uid, the uids around every table size of the build and around 2^16, the last uids
+        uids = sorted(u for u in {2, 41, max_board - 1, max_board, max_board + 1, 65535, 65536, 65537, 65538, 131073, max_users - 1, max_users}
+                      | ({urng.randrange(max_board + 2, 65535), urng.randrange(65539, max_users - 1)} if max_users > 70000 else set())
+                      if (u == 2 or u >= 41) and 1 <= u <= max_users)
+        l10, m10 = [], []
+        for uid in uids:
+            for (r, t) in uid_rows:
+                active = r["cd_rel"] >= 0
+                # the neighbours a wrong index / a wrong bound would read: the opposite cool-down state is planted there
+                near = [u for u in (1, uid - 1, uid + 1, uid - 65536, uid + 65536, uid % 65536, uid % max_board, uid - max_board, max_board, max_users, 2)
+                        if 1 <= u <= max_users and u != uid]
+                near = sorted(set(near))
+                others = " ".join("%d %d %d" % ((u, -600, 0) if active else (u, 600, 15)) for u in near)
+                for op in (1, 2, 3, 4, 5):
+                    l10.append("10|%d|%d %d|%s|%s" % (op, uid, max_users, others, line(op, r).split("|", 1)[1]))
+                    m10.append((op, r, t, uid))
+        f10 = [side.submit(vf.run_impl, exe, "C08", l10[k:k + 1000], 60000) for k in range(0, len(l10), 1000)]
+        jobs10[build] = (exe, max_users, max_board, uids, l10, m10, f10)
 
     # ---------------------------------------------------------------- the table
     rows, tags, rops = [], [], []
@@ -359,6 +495,7 @@ def main():
         for op in ops:
             lines.append(line(op, r)); meta.append((op, r, t))
     out = run_impl_par(lines)
+    tick("table impl")
     c.count(len(lines), "rows x (4 operations + rule pieces)")
     if model:
         mo = vf.run_model(model, lines)
@@ -375,6 +512,7 @@ def main():
                                  "examples": [{"case": l, "model": o, "check": want}], "log": ""})
                 break
 
+    tick("table model")
     # ---------------------------------------------------------------- getRestrictionReason and isFileOwner on their own
     rl = reason_lines(rng, thorough)
     ol = owner_lines(rng, thorough)
@@ -408,55 +546,68 @@ def main():
             c.violation("isFileOwner-reference", "isFileOwner(owner %r, user %r, file %r, first login %d) = %s, reference says %d" % (o_, u_, fn_, fl_, o, owner_ref(*t)),
                         {"cases": [l], "expected": "0 %d" % owner_ref(*t), "got": o})
 
+    tick("sweeps")
     stats = {}
-    for k_line, ((op, r, t), l, o) in enumerate(zip(meta, lines, out)):
+
+    def judge(op, r, t, l, o, exp, ctx=None):
+        """the direct predicates on one outcome. ctx: None for a table row; for a row run under a site configuration
+        (op 9) or under another uid / build (op 10) a dict: what (text for the message), ro_key / cd_key (suffix of the
+        violation key when the refused-by-rule conjunct is the read-only board / the cool-down), replay (extra replay fields)"""
         fo = o.split()
         f = facts(r)
-        exp = {"expected": mo[k_line]} if model else {}
+        exp = dict(exp)
+        where = ""
+        ro_sfx = cd_sfx = ""
+        if ctx:
+            exp.update(ctx.get("replay", {}))
+            where = " [" + ctx["what"] + "]"
+            ro_sfx, cd_sfx = ctx.get("ro_key", ""), ctx.get("cd_key", "")
         if fo[0] != "0":
-            c.violation("crash:%s" % OPS.get(op, "pieces"), "%s crashed / stalled on %s: %s" % (OPS.get(op, "rule pieces"), l, o), {"cases": [l], "got": o})
-            continue
+            c.violation("crash:%s" % OPS.get(op, "pieces"), "%s crashed / stalled on %s: %s%s" % (OPS.get(op, "rule pieces"), l, o, where), dict({"cases": [l], "got": o}, **exp))
+            return
+        l0, l = l, l + where
         if op == 5:
             ok_perm, restricted, cooling = fo[1] == "0", fo[2] == "1", fo[3] == "1"
             if ok_perm != f["posting_rules"]:
-                c.violation("piece:CheckPostPerm2", "CheckPostPerm2 = %s where the posting rules say %s; %s" % (fo[1], f["posting_rules"], l), dict({"cases": [l], "got": o}, **exp))
+                c.violation("piece:CheckPostPerm2" + (ro_sfx if f["readonly"] or fo[1] == "2" else ""),
+                            "CheckPostPerm2 = %s where the posting rules say %s; %s" % (fo[1], f["posting_rules"], l), dict({"cases": [l0], "got": o}, **exp))
             if restricted == f["limits_ok"]:
-                c.violation("piece:CheckPostRestriction", "CheckPostRestriction = %s where limits_ok = %s; %s" % (not restricted, f["limits_ok"], l), dict({"cases": [l], "got": o}, **exp))
+                c.violation("piece:CheckPostRestriction", "CheckPostRestriction = %s where limits_ok = %s; %s" % (not restricted, f["limits_ok"], l), dict({"cases": [l0], "got": o}, **exp))
             if cooling != f["cooldown"]:
-                c.violation("piece:checkCooldown", "checkCooldown = %s where the cool-down is %s; %s" % (cooling, f["cooldown"], l), dict({"cases": [l], "got": o}, **exp))
-            continue
+                c.violation("piece:checkCooldown" + cd_sfx, "checkCooldown = %s where the cool-down is %s; %s" % (cooling, f["cooldown"], l), dict({"cases": [l0], "got": o}, **exp))
+            return
         name = OPS[op]
         code, trace = int(fo[1]), fo[5] == "1"
         accepted = code == 0
         stats[(name, "accept" if accepted else "refuse %d" % code)] = stats.get((name, "accept" if accepted else "refuse %d" % code), 0) + 1
         c.nontrivial((op, code, t))
         if code == 19:
-            c.violation("other-error:" + name, "%s failed with an error outside the rule set on %s" % (name, l), dict({"cases": [l], "got": o}, **exp))
+            c.violation("other-error:" + name, "%s failed with an error outside the rule set on %s" % (name, l), dict({"cases": [l0], "got": o}, **exp))
         if not accepted and trace:
             c.violation("refusal-trace:" + name, "%s refused (%d) but an index / a board directory (target, source, log boards: any board of the BBS) / "
-                        "the author's record changed; %s" % (name, code, l), dict({"cases": [l], "got": o}, **exp))
+                        "the author's record changed; %s" % (name, code, l), dict({"cases": [l0], "got": o}, **exp))
         if accepted and not f["may_write"]:
             # which conjunct of the rule set was skipped
             if not f["readable"]:
                 key = "%s-unreadable" % name.lower()
             elif not f["posting_rules"]:
-                key = "%s-posting-rules" % name.lower()
+                key = "%s-posting-rules" % name.lower() + (ro_sfx if f["readonly"] else "")
             elif not f["limits_ok"]:
                 key = "%s-no-limits" % name.lower()
             elif not f["verified"]:
                 key = "%s-unverified" % name.lower()
             else:
-                key = "%s-cooldown" % name.lower()
+                key = "%s-cooldown" % name.lower() + (cd_sfx if op != 3 else "")
             c.violation(key, "%s accepted a write the rule set refuses (readable=%s rules=%s limits=%s verified=%s cooldown=%s); row %s" % (
-                name, f["readable"], f["posting_rules"], f["limits_ok"], f["verified"], f["cooldown"], l), dict({"cases": [l], "got": o}, **exp))
+                name, f["readable"], f["posting_rules"], f["limits_ok"], f["verified"], f["cooldown"], l), dict({"cases": [l0], "got": o}, **exp))
         if accepted and op == 3 and not (f["owner"] or f["sysop"]):
             c.violation("edit-not-owner", "EditPost accepted an edit by someone who is neither the author nor a sysop (owner field %r, editor %r); %s" % (
-                owner_bytes(r), CALLER, l), dict({"cases": [l], "got": o}, **exp))
+                owner_bytes(r), CALLER, l), dict({"cases": [l0], "got": o}, **exp))
         if accepted and op == 4 and not f["src_readable"]:
-            c.violation("crosspost-source-unreadable", "CrossPost accepted out of a board the user may not read; %s" % l, dict({"cases": [l], "got": o}, **exp))
+            c.violation("crosspost-source-unreadable", "CrossPost accepted out of a board the user may not read; %s" % l, dict({"cases": [l0], "got": o}, **exp))
         if accepted and op == 4 and f["src_cplog"] and not (f["src_rules"] and f["src_limits_ok"]):
             c.violation("crosspost-source-rules", "CrossPost out of a BRD_CPLOG board wrote the forward line into the source article although the source board's "
-                        "rules refuse the user (rules=%s limits=%s); %s" % (f["src_rules"], f["src_limits_ok"], l), dict({"cases": [l], "got": o}, **exp))
+                        "rules refuse the user (rules=%s limits=%s); %s" % (f["src_rules"], f["src_limits_ok"], l), dict({"cases": [l0], "got": o}, **exp))
         if not accepted and f["may_write"]:
             ba = r["battr"]
             pre = {1: True,
@@ -465,7 +616,44 @@ def main():
                    4: r["exists"] and not r["ulevel"] & P["VIOLATELAW"] and f["src_readable"] and not f["src_voteboard"] and
                       (not f["src_cplog"] or (f["src_rules"] and f["src_limits_ok"]))}[op]
             if pre:
-                c.violation("spurious-refusal:" + name, "%s refused (%d) a write the rule set allows; %s" % (name, code, l), dict({"cases": [l], "got": o}, **exp))
+                c.violation("spurious-refusal:" + name + (ro_sfx if code == 2 else ""), "%s refused (%d) a write the rule set allows; %s" % (name, code, l), dict({"cases": [l0], "got": o}, **exp))
+
+    for k_line, ((op, r, t), l, o) in enumerate(zip(meta, lines, out)):
+        judge(op, r, t, l, o, {"expected": mo[k_line]} if model else {})
+
+    tick("judged")
+    # ---------------------------------------------------------------- the read-only system boards as the SITE names them
+    # every configuration is loaded through the project's own start-up path (ini file -> initgin.InitAllConfig) after the
+    # packages were initialised; rows address a board by name. A board the configuration in force names read-only
+    # refuses every write; a board it does not name follows the ordinary rules (also when its name is a compiled-in default)
+    o9 = f9.result()
+    tick("cfg impl")
+    c.count(len(l9), "rows x operations under %d site configurations of the read-only system boards x %d target boards" % (len(SITE_CONFIGS), len(TARGETS)))
+    mo9 = vf.run_model(model, l9) if model else None
+    if model:
+        vf.correspond(c, "rows under site configurations (BN_SECURITY / BN_ALLPOST from the ini file)", l9, o9, mo9)
+    for k, ((op, reff, t, sec, allpost, tgt, ro), l, o) in enumerate(zip(m9, l9, o9)):
+        named = "the compiled-in names" if (sec, allpost) == SITE_CONFIGS[0] else "a site configuration"
+        ctx = {"what": "%s: BN_SECURITY=%s BN_ALLPOST=%s, target board %s is %sread-only" % (named, sec.decode(), allpost.decode(), tgt.decode(), "" if ro else "not "),
+               "ro_key": ":board-%s-by-site-configuration" % ("read-only" if ro else "not-read-only")}
+        judge(op, reff, ("cfg", sec, allpost, tgt) + t, l, o, {"expected": mo9[k]} if model else {}, ctx)
+
+    tick("cfg done")
+    # ---------------------------------------------------------------- the writer's uid: SHM->cooldowntime[uid-1], both builds
+    for build, (exe, max_users, max_board, uids, l10, m10, f10) in jobs10.items():
+        o10 = [o for fu in f10 for o in fu.result()]
+        c.count(len(l10), "cool-down rows x operations x writer uids %s in the %s build (MAX_USERS %d, MAX_BOARD %d)" % (uids, build, max_users, max_board))
+        mo10 = vf.run_model(model, l10) if model else None
+        if model:
+            vf.correspond(c, "cool-down rows by writer uid, %s build" % build, l10, o10, mo10)
+        for k, ((op, r, t, uid), l, o) in enumerate(zip(m10, l10, o10)):
+            cls = "uid-above-MAX_BOARD" if uid > max_board else "uid-up-to-MAX_BOARD"
+            ctx = {"what": "%s build%s: MAX_USERS %d, MAX_BOARD %d; the caller is user number %d" % (build, " (-tags docker)" if build == "docker" else "", max_users, max_board, uid),
+                   "cd_key": ":%s-build-%s" % (build, cls), "replay": {"build": build}}
+            judge(op, r, ("uid", build, uid) + t, l, o, {"expected": mo10[k]} if model else {}, ctx)
+        c.cov["distribution"]["uids %s" % build] = len(uids)
+    vf.ipc_cleanup()
+    tick("uid done")
     c.cov["distribution"].update({"%s %s" % k: v for k, v in sorted(stats.items())})
     c.sample({"row": lines[0], "impl": out[0], "legend": "status code(0=accepted) d.DIR d.files d.NumPosts refusal-trace(any board directory / index / the author's record)"})
     k7 = next((k for k, t in enumerate(rl) if t[2] == 30 and t[0] == 44), 0)
@@ -478,15 +666,27 @@ def main():
     c.cov["exhaustive_parts"] = ["the all-rules-pass row, all %d single deviations and all %d pairs of deviations from it, each through the four operations and the rule pieces" % (
         len(DEV), len(DEV) * (len(DEV) - 1) // 2),
         "getRestrictionReason: all 256 login-days limits x the days around 10 x limit and around (10 x limit) mod 256; all 256 x 256 (bad-post limit, bad-post count) pairs",
-        "isFileOwner: all ordered pairs of 32 ids related by prefix / case / trailing character / embedded NUL"]
+        "isFileOwner: all ordered pairs of 32 ids related by prefix / case / trailing character / embedded NUL",
+        "site configurations: %d (BN_SECURITY, BN_ALLPOST) pairs (compiled-in, either / both renamed to existing boards, other case, the default board, names sharing "
+        "only a prefix with a board) x %d target boards x base + all single deviations (+ sysop pairs) where the target is read-only or the names are the compiled-in ones" % (
+            len(SITE_CONFIGS), len(TARGETS)),
+        "writer uids: every cool-down state x {alone, sysop, moderator, banned, guest-post, unverified, few logins, not owner} x 5 operations for each uid of "
+        "default %s / docker %s" % (jobs10["default"][3], jobs10["docker"][3])]
     c.cov["structured_rows"] = n_struct
     c.finish(rule="baseline + all single and pair deviations (%d named deviations: permission bits, moderator, friend, ban active/expired, board kind, attributes, levels, "
                   "limits at and around their thresholds incl. limits of 26..255 units, cool-down states, owner field = caller's id / longer / shorter / other case / "
                   "trailing characters / NUL+junk / unrelated, cross-post source board with BRD_CPLOG / ban / limits / level / hidden / restricted / vote) + a grid of both "
                   "limits over their byte range x user / moderator / sysop (target and source board) + PRNG(seed) combinations of 3-8 deviations; each row x NewPost, "
                   "Recommend, EditPost, CrossPost, rule pieces, with snapshots of every board directory and index; getRestrictionReason and isFileOwner swept on their own; "
-                  "a case is non-trivial per distinct (operation, outcome code, deviation set)" % len(DEV),
-             assumptions=["build-time switches at their defaults (USE_COOLDOWN, REJECT_FLOOD_POST, USE_NEW_BAN_SYSTEM, USE_SYSOP_EDIT, SAFE_ARTICLE_DELETE = true)",
+                  "a case is non-trivial per distinct (operation, outcome code, deviation set); + rows under site configurations naming the read-only system boards "
+                  "(ini file -> initgin.InitAllConfig) x target boards by name; + cool-down rows x writer uids around MAX_BOARD / 2^16 / MAX_USERS in the default and the "
+                  "-tags docker build, neighbours' cool-down words planted in the opposite state" % len(DEV),
+             assumptions=["site configuration: only the names of the read-only system boards (BN_SECURITY, BN_ALLPOST) are varied, loaded from an ini file through "
+                          "initgin.InitAllConfig after package initialisation; BN_ALLPOST is only renamed to an existing board in its own spelling (the code also "
+                          "writes its log there); every other configuration value at its default",
+                          "builds: default (MAX_USERS 50) and -tags docker (MAX_USERS 2 000 000, MAX_BOARD 20 000); in the docker build only the cool-down rows are run, "
+                          "for %d writer uids (the records of high uids live in a sparsely extended .PASSWDS of the scratch BBS)" % len(jobs10["docker"][3]),
+                          "build-time switches at their defaults (USE_COOLDOWN, REJECT_FLOOD_POST, USE_NEW_BAN_SYSTEM, USE_SYSOP_EDIT, SAFE_ARTICLE_DELETE = true)",
                           "clock: cool-down and ban expiry are planted 600 s / 1000 s away from the clock the code reads, so no second boundary is crossed",
                           "the cool-down word in shared memory is outside the no-trace frame (checkCooldown normalises an expired word before later guards run)",
                           "sysop exemption from ban / post-permission / level rules, and the hidden-board and default/guest-post shortcuts of pttbbs' postperm, are part of the rule set as specified"])
